@@ -199,21 +199,24 @@ export class Interp {
   /** children of a non-component host, evaluated now, in order */
   childList(children) {
     const out = [];
+    let written = 0;
     for (const c of children) {
       switch (c.t) {
         case 'text': {
           const s = cleanJSXText(c.decoded);
-          if (s !== '') out.push(s);
+          if (s !== '') { out.push(s); written++; }
           break;
         }
-        case 'expr': out.push(this.leaf(c.i)); break;
+        case 'expr': out.push(this.leaf(c.i)); written++; break;
         case 'empty': break;
-        case 'spread': out.push(...this.leaf(c.i)); break;
-        case 'el': out.push(this.element(c.el)); break;
+        case 'spread': out.push(...this.leaf(c.i)); written++; break;
+        case 'el': out.push(this.element(c.el)); written++; break;
         default: throw new Error('bad child ' + c.t);
       }
     }
-    return out.length ? out : null;
+    // null only when no written child remains (a spread child is a written child even
+    // if it turns out empty at runtime)
+    return written ? out : null;
   }
 
   /** effective children after dropping empties and text that cleans to "" */
